@@ -25,6 +25,7 @@ class SymCtx(object):
             E.add(v >= lo)
         if hi is not None:
             E.add(v <= hi)
+        E.declare_range(v, lo, hi)
         E.inputs[name] = ('int', v)
         return SInt(v)
 
@@ -39,9 +40,11 @@ class SymCtx(object):
             if alphabet is not None:
                 codes = sorted(set(ord(a) if isinstance(a, str) else a for a in alphabet))
                 E.add(_in_codes(ch, codes))
+                E.declare_domain(ch, codes)
             else:
                 E.add(ch >= lo)
                 E.add(ch <= hi)
+                E.declare_range(ch, lo, hi)
         s = CStr(cs, is_bytes=bytes_)
         E.inputs[name] = ('bytes' if bytes_ else 'str', s)
         return s
@@ -65,6 +68,60 @@ class SymCtx(object):
         c = E.choose(n)
         E.inputs[name] = ('choice', c)
         return c if isinstance(options, int) else options[c]
+
+    # -- structured inputs (stdlib values)
+    def date(self, name, ymin=1, ymax=9999):
+        from .stdmodels import SDate, _days_in_month
+        y, m, d = self.int(name + '_y', ymin, ymax), self.int(name + '_m', 1, 12), self.int(name + '_d', 1, 31)
+        E.add(d.z <= _days_in_month(y.z, m.z))
+        return SDate(y, m, d, True)
+
+    def time(self, name):
+        from .stdmodels import STime
+        return STime(self.int(name + '_H', 0, 23), self.int(name + '_M', 0, 59),
+                     self.int(name + '_S', 0, 59), self.int(name + '_us', 0, 999999), None, True)
+
+    def datetime(self, name, tz='naive', ymin=1, ymax=9999, offset_range=(-840, 840)):
+        from .stdmodels import SDateTime, SFixedOffset, _days_in_month
+        import pytz
+        y, m, d = self.int(name + '_y', ymin, ymax), self.int(name + '_m', 1, 12), self.int(name + '_d', 1, 31)
+        E.add(d.z <= _days_in_month(y.z, m.z))
+        H, M, S, us = (self.int(name + '_H', 0, 23), self.int(name + '_M', 0, 59),
+                       self.int(name + '_S', 0, 59), self.int(name + '_us', 0, 999999))
+        tzinfo = None
+        if tz == 'utc':
+            tzinfo = pytz.utc
+        elif tz == 'offset':
+            tzinfo = SFixedOffset(self.int(name + '_off', *offset_range))
+        return SDateTime(y, m, d, H, M, S, us, tzinfo, True)
+
+    def timedelta(self, name, maxdays=999999999):
+        from .stdmodels import STimeDelta
+        d, sc, us = (self.int(name + '_days', -maxdays, maxdays), self.int(name + '_s', 0, 86399),
+                     self.int(name + '_us', 0, 999999))
+        return STimeDelta(_total=(d.z * 86400 + sc.z) * 1000000 + us.z, _norm=(d.z, sc.z, us.z))
+
+    def decimal(self, name, ndigits, exp):
+        from .stdmodels import SDecimal
+        neg = self.bool(name + '_neg')
+        digs = self.digits(name + '_digits', ndigits)
+        if ndigits > 1:
+            E.add(digs.c[0] != 48)
+        return SDecimal(neg.z, digs, exp)
+
+    def offset_minutes(self, dt):
+        from .stdmodels import tz_minutes
+        if isinstance(dt, Sym):
+            return tz_minutes(dt.tzinfo)
+        off = dt.utcoffset()
+        if off is None:
+            return None
+        return off.days * 1440 + off.seconds // 60
+
+    def td_microseconds(self, td):
+        if isinstance(td, Sym):
+            return SInt(td.total)
+        return (td.days * 86400 + td.seconds) * 1000000 + td.microseconds
 
     # -- control
     def assume(self, c):
@@ -180,9 +237,11 @@ class SymCtx(object):
         return len(x)
 
     def matches(self, regex, text):
-        """full match of a *concrete* regular expression against a (symbolic) text; forks"""
+        """full match of a *concrete* regular expression against a (symbolic) text; no forking"""
         if isinstance(text, CStr):
-            return re_match(re.compile(regex), text, full=True) is not None
+            from .strs import re_member
+            r = re_member(regex, text)
+            return r if isinstance(r, bool) else SBool(r)
         return re.fullmatch(regex, text) is not None
 
     def digits_value(self, text):
